@@ -1,10 +1,191 @@
 import WzVerif.Driver.Proto
 import WzVerif.Model.Cookie
+import WzVerif.Model.CookieJar
 namespace Wz.Driver.C13
 open Wz Wz.Proto Wz.Cookie
 
 def pairs (l : List (List Char × List Char)) : String :=
   outList (fun (k, v) => hexStr k ++ ":" ++ hexStr v) l
+
+/-- names in order of first occurrence (the key order of the `MultiDict` the parsers return) -/
+def distinctKeys (l : List (Str × Str)) : List Str :=
+  l.foldl (fun acc p => if acc.contains p.1 then acc else acc ++ [p.1]) []
+
+/-- `MultiDict.items(multi=True)`: values grouped by name, names in order of first occurrence -/
+def grouped (l : List (Str × Str)) : List (Str × Str) :=
+  (distinctKeys l).flatMap fun k => l.filter (·.1 == k)
+
+/-- per distinct name: `md.get(name)` and `md.getlist(name)` -/
+def mdView (l : List (Str × Str)) : String :=
+  outList (fun k => hexStr k ++ ":" ++ outOpt hexStr (cookiesGet l k) ++ ":" ++
+    "+".intercalate ((cookiesGetList l k).map hexStr)) (distinctKeys l)
+
+/-! ### sub-encodings (see harness/c13.py): lists use one separator per nesting level -/
+
+def splitList (sep : String) (s : String) : List String :=
+  if s == "[]" then [] else s.splitOn sep
+
+/-- table `hexkey=payload,...` -/
+def table (s : String) : Option (List (Str × String)) :=
+  (splitList "," s).mapM fun e =>
+    match e.splitOn "=" with
+    | [k, v] => (unhexStr k).map (·, v)
+    | _ => none
+
+def lookup (t : List (Str × String)) (k : Str) : Option String := (t.find? (·.1 == k)).map (·.2)
+
+/-- payload `!Class` = the call raises, else hex text -/
+def payload (p : String) : Except String Str :=
+  if p.startsWith "!" then .error (p.drop 1).toString
+  else match unhexStr p with
+    | some s => .ok s
+    | none => .error "BAD-TABLE"
+
+def mkLib (idna date sync iri pdate : String) : Option Lib := do
+  let ti ← table idna
+  let td ← table date
+  let ts := (splitList "," sync).filterMap fun e =>
+    match e.splitOn "=" with
+    | [k, v] => k.toInt?.map (·, v)
+    | _ => none
+  let tr ← table iri
+  let tp ← table pdate
+  pure {
+    idna := fun s => match lookup ti s with | some p => payload p | none => .error "OPAQUE-MISS-idna"
+    httpDate := fun s => match lookup td s with | some p => payload p | none => .error "OPAQUE-MISS-date"
+    syncDate := fun m => match (ts.find? (·.1 == m)).map (·.2) with
+      | some p => payload p
+      | none =>
+        -- placeholder of the length of a real http_date (29 characters)
+        let t := "@now+".toList ++ (toString m).toList
+        .ok (t ++ List.replicate (29 - t.length) '_')
+    iri := fun s => match lookup tr s with
+      | some p => (match unhexStr p with | some r => r | none => "OPAQUE-BAD-iri".toList)
+      | none => "OPAQUE-MISS-iri".toList
+    parseDate := fun s => (lookup tp s).bind String.toInt? }
+
+def maxAgeArg (s : String) : Option (Option MaxAgeArg) :=
+  if s == "~" then some none
+  else if s.startsWith "i" then (s.drop 1).toString.toInt?.map (fun i => some (.int i))
+  else if s.startsWith "t" then (s.drop 1).toString.toInt?.map (fun i => some (.td i))
+  else none
+
+def expiresArg (s : String) : Option (Option ExpiresArg) :=
+  if s == "~" then some none
+  else if s.startsWith "s" then (unhexStr (s.drop 1).toString).map (fun x => some (.str x))
+  else if s.startsWith "o" then (unhexStr (s.drop 1).toString).map (fun x => some (.obj x))
+  else none
+
+def dumpArgs (sep : String) (s : String) : Option DumpArgs :=
+  match s.splitOn sep with
+  | [k, v, ma, ex, path, dom, sec, ho, sync, msz, ss, part] => do
+    pure { key := ← unhexStr k, value := ← unhexStr v, maxAge := ← maxAgeArg ma, expires := ← expiresArg ex,
+           path := ← optArg unhexStr path, domain := ← optArg unhexStr dom, secure := ← boolArg sec,
+           httponly := ← boolArg ho, syncExpires := ← boolArg sync, maxSize := ← intArg msz,
+           samesite := ← optArg unhexStr ss, partitioned := ← boolArg part }
+  | _ => none
+
+def setArgs (sep : String) (s : String) : Option SetArgs :=
+  match s.splitOn sep with
+  | [k, v, ma, ex, path, dom, sec, ho, ss, part] => do
+    pure { key := ← unhexStr k, value := ← unhexStr v, maxAge := ← maxAgeArg ma, expires := ← expiresArg ex,
+           path := ← optArg unhexStr path, domain := ← optArg unhexStr dom, secure := ← boolArg sec,
+           httponly := ← boolArg ho, samesite := ← optArg unhexStr ss, partitioned := ← boolArg part }
+  | _ => none
+
+def delArgs (sep : String) (s : String) : Option DeleteArgs :=
+  match s.splitOn sep with
+  | [k, path, dom, sec, ho, ss, part] => do
+    pure { key := ← unhexStr k, path := ← optArg unhexStr path, domain := ← optArg unhexStr dom,
+           secure := ← boolArg sec, httponly := ← boolArg ho, samesite := ← optArg unhexStr ss,
+           partitioned := ← boolArg part }
+  | _ => none
+
+inductive Action where
+  | set (a : SetArgs) | del (a : DeleteArgs)
+
+def action (sep : String) (s : String) : Option Action :=
+  if s.startsWith "S" then (setArgs sep (s.drop 1).toString).map .set
+  else if s.startsWith "D" then (delArgs sep (s.drop 1).toString).map .del
+  else none
+
+/-- run a list of `set_cookie` / `delete_cookie` calls on one Response (a failing call leaves the
+headers as they were): per call result, final header list -/
+def runActions (lib : Lib) (mcs : Int) : List Action → HeaderList → List String → HeaderList × List String
+  | [], h, out => (h, out.reverse)
+  | a :: t, h, out =>
+    let r := match a with
+      | .set x => responseSetCookie lib mcs h x
+      | .del x => responseDeleteCookie lib mcs h x
+    match r with
+    | .ok (h', w) => runActions lib mcs t h' ((if w then "ok:W" else "ok:-") :: out)
+    | .error e => runActions lib mcs t h (("EXC:" ++ e) :: out)
+
+def setCookieValues (h : HeaderList) : List Str := (h.filter (·.1 == setCookieName)).map (·.2)
+
+def showCookie (c : JarCookie) : String :=
+  "^".intercalate [hexStr c.key, hexStr c.value, hexStr c.decodedKey, hexStr c.decodedValue,
+    (match c.expires with | none => "~" | some e => if e == 0 then "0" else "T"), outOpt toString c.maxAge, hexStr c.domain, outBool c.originOnly,
+    hexStr c.path, outBool c.secure, outBool c.httpOnly, outOpt hexStr c.sameSite]
+
+/-- what the app sees on a request: raw Cookie header and `Request.cookies` -/
+def seen (j : Jar) (server path : Str) : String :=
+  outOpt hexStr (j.cookieHeader server path) ++ "|" ++ pairs (grouped (j.requestCookies server path))
+
+def jarOp (lib : Lib) (j : Jar) (op : String) : Option (Jar × String) :=
+  let body := (op.drop 1).toString
+  if op.startsWith "R" then
+    match body.splitOn "|" with
+    | [srv, path, mcs, acts] => do
+      let srv ← unhexStr srv
+      let path ← unhexStr path
+      let mcs ← intArg mcs
+      let acts ← (splitList "&" acts).mapM (action "^")
+      let (h, res) := runActions lib mcs acts [] []
+      let (_, err) := j.update lib srv path (setCookieValues h)
+      let j' := j.step lib (.response srv path (setCookieValues h))
+      pure (j', seen j srv path ++ "|" ++ outList id res ++ "|" ++ (match err with | none => "ok" | some e => "EXC:" ++ e))
+    | _ => none
+  else if op.startsWith "H" then
+    match body.splitOn "|" with
+    | [srv, path, hdrs] => do
+      let srv ← unhexStr srv
+      let path ← unhexStr path
+      let hdrs ← (splitList "&" hdrs).mapM unhexStr
+      let (_, err) := j.update lib srv path hdrs
+      let j' := j.step lib (.response srv path hdrs)
+      pure (j', seen j srv path ++ "|" ++ (match err with | none => "ok" | some e => "EXC:" ++ e))
+    | _ => none
+  else if op.startsWith "C" then
+    match body.splitOn "|" with
+    | [dom, oo, path, da] => do
+      let dom ← unhexStr dom
+      let oo ← boolArg oo
+      let path ← unhexStr path
+      let da ← dumpArgs "^" da
+      pure (j.step lib (.clientSet dom oo path da),
+        match clientSetCookie lib j dom oo path da with
+        | .ok _ => "ok"
+        | .error e => "EXC:" ++ e)
+    | _ => none
+  else if op.startsWith "X" then
+    match body.splitOn "|" with
+    | [k, dom, path] => do
+      pure (j.step lib (.clientDelete (← unhexStr k) (← unhexStr dom) (← unhexStr path)), "ok")
+    | _ => none
+  else if op.startsWith "G" then
+    match body.splitOn "|" with
+    | [k, dom, path] => do
+      pure (j, outOpt showCookie (clientGetCookie j (← unhexStr k) (← unhexStr dom) (← unhexStr path)))
+    | _ => none
+  else none
+
+def jarRun (lib : Lib) : List String → Jar → List String → Option (List String)
+  | [], _, out => some out.reverse
+  | op :: t, j, out =>
+    match jarOp lib j op with
+    | some (j', r) => jarRun lib t j' (r :: out)
+    | none => none
 
 def handle : Handler
   | "cookie.dumpvalue", [v] =>
@@ -19,6 +200,42 @@ def handle : Handler
                          path := path, samesite := ss, partitioned := part }
       some (match dumpCookie k v a with | .ok r => hexStr r | .error e => "EXC:" ++ e)
     | _, _, _, _, _, _, _, _, _, _ => some badArgs
+  | "cookie.dumpfull", [idna, date, sync, da] =>
+    match mkLib idna date sync "[]" "[]", dumpArgs "|" da with
+    | some lib, some a =>
+      some (match dumpCookieFull lib a with
+        | .ok (h, w) => hexStr h ++ (if w then ":W" else ":-")
+        | .error e => "EXC:" ++ e)
+    | _, _ => some badArgs
+  | "cookie.quotepath", [p] =>
+    match unhexStr p with
+    | some p => some (hexStr (quotePath p))
+    | none => some badArgs
+  | "resp.run", [idna, date, sync, mcs, acts] =>
+    match mkLib idna date sync "[]" "[]", intArg mcs, (splitList ";" acts).mapM (action "|") with
+    | some lib, some mcs, some acts =>
+      let (h, res) := runActions lib mcs acts [] []
+      some (outList id res ++ "#" ++ outList hexStr (setCookieValues h))
+    | _, _, _ => some badArgs
+  | "jar.run", [idna, date, sync, iri, pdate, ops] =>
+    match mkLib idna date sync iri pdate with
+    | some lib =>
+      some (match jarRun lib (splitList ";" ops) [] [] with
+        | some outs => ";".intercalate outs
+        | none => badArgs)
+    | none => some badArgs
+  | "jar.match", [cdom, oo, cpath, srv, path] =>
+    match unhexStr cdom, boolArg oo, unhexStr cpath, unhexStr srv, unhexStr path with
+    | some cdom, some oo, some cpath, some srv, some path =>
+      some (outBool (domainMatch cdom oo srv) ++ outBool (pathMatch cpath path))
+    | _, _, _, _, _ => some badArgs
+  | "cookie.parsemd", [h, env] =>
+    match unhexStr h, boolArg env with
+    | some h, some env =>
+      some (match (if env then parseCookieEnviron h else some (parseCookie h)) with
+        | some r => pairs r ++ "#" ++ mdView r
+        | none => "EXC:UnicodeEncodeError")
+    | _, _ => some badArgs
   | "cookie.parse", [h] =>
     match unhexStr h with
     | some h => some (pairs (parseCookie h))
